@@ -107,6 +107,7 @@ let functions : (string * (val0 -> val0)) list = [
   ("reggen", reggen_run);
   ("sigprune", prune_run);
   ("votesh", votesh_run);
+  ("relay", relay_run);
 ]
 
 (* monitors: (property, suite) -> case -> implementation output -> list of violations *)
@@ -141,6 +142,7 @@ let monitors : ((string * string) * (val0 -> val0 -> val0)) list = [
   (("C18", "oracle"), mon_C18);
   (("C20", "conn"), mon_C20_conn);
   (("C20", "cmd"), mon_C20_cmd);
+  (("C20", "relay"), mon_C20_relay);
 ]
 
 let first_diff (a : val0) (b : val0) : int =
